@@ -197,7 +197,9 @@ pub static TLS_GONE: AtomicUsize = AtomicUsize::new(0);
 struct ExitFlush;
 impl Drop for ExitFlush {
     fn drop(&mut self) {
+        io_watch_arm();
         let r = std::panic::catch_unwind(nested_roundtrip);
+        io_watch_disarm();
         let fault = match r {
             Ok(None) => None,
             Ok(Some(e)) => Some(e),
@@ -245,6 +247,36 @@ fn exit_violation(plan: &IoPlan, what: String) -> Violation {
     }
 }
 
+// ---- watchdog: a serialize/deserialize call that never returns (a lock held across the caller's stream
+// whose call-back re-enters the library) must not block the shard for ever. The process aborts; the
+// driver treats that like any death by signal: replay file, re-execution in a child, verdict only on repeat.
+static IO_WATCH: Mutex<Option<Instant>> = Mutex::new(None);
+
+fn io_watch_arm() {
+    static STARTED: std::sync::Once = std::sync::Once::new();
+    STARTED.call_once(|| {
+        let _ = std::thread::Builder::new().name("io-watchdog".into()).spawn(|| loop {
+            std::thread::sleep(std::time::Duration::from_millis(500));
+            let due = IO_WATCH.lock().ok().map(|g| g.map(|d| Instant::now() > d).unwrap_or(false)).unwrap_or(false);
+            if due {
+                eprintln!("STALL: a serialize/deserialize call never returned; aborting the shard");
+                std::process::abort();
+            }
+        });
+    });
+    let secs = std::env::var("PP_SIM_STALL_SECS").ok().and_then(|v| v.parse().ok()).unwrap_or(120u64);
+    *IO_WATCH.lock().unwrap() = Some(Instant::now() + std::time::Duration::from_secs(secs));
+}
+fn io_watch_disarm() {
+    *IO_WATCH.lock().unwrap() = None;
+}
+fn execute_watched(p: &IoPlan, want_log: bool) -> RunResult {
+    io_watch_arm();
+    let r = execute(p, want_log);
+    io_watch_disarm();
+    r
+}
+
 /// execute the plans one after the other on one brand-new OS thread
 pub fn execute_chunk(plans: &[IoPlan]) -> Vec<RunResult> {
     let joined = std::thread::scope(|s| {
@@ -252,7 +284,7 @@ pub fn execute_chunk(plans: &[IoPlan]) -> Vec<RunResult> {
             .stack_size(1024 * 1024)
             .spawn_scoped(s, || {
                 arm_exit_flush();
-                (std::thread::current().id(), plans.iter().map(|p| execute(p, false)).collect::<Vec<_>>())
+                (std::thread::current().id(), plans.iter().map(|p| execute_watched(p, false)).collect::<Vec<_>>())
             })
             .map(|h| h.join())
     });
@@ -278,7 +310,7 @@ pub fn execute_isolated(plan: &IoPlan, want_log: bool) -> RunResult {
             .stack_size(512 * 1024)
             .spawn_scoped(s, || {
                 arm_exit_flush();
-                (std::thread::current().id(), execute(plan, want_log))
+                (std::thread::current().id(), execute_watched(plan, want_log))
             })
             .map(|h| h.join())
     });
